@@ -163,6 +163,13 @@ def cases(ctx):
         ("literal.path.in_kwargs", "Value.items_contain(k={'path': [a]})", [("a", U)]),
         ("literal.path.kwname", "Value.items_contain(path=a)", [("a", U)]),
         ("literal.path.scalar", "Value.equal_to({'path': a})", [("a", "int")]),
+        ("literal.multi_key.path_last", "Value.equal_to({'name': 'x', 'path': [a, 2]})", [("a", U)]),
+        ("literal.multi_key.path_first", "Value.equal_to({'path': [a, 2], 'name': 'x'})", [("a", U)]),
+        ("literal.multi_key.suffix_last", "Value.not_equal_to({'kind': 'len', 'path.length': a, 'n': 0})", [("a", U)]),
+        ("literal.multi_key.in_list", "Value.in_([3, {'name': 'x', 'path': [a]}])", [("a", U)]),
+        ("literal.multi_key.in_kwargs", "Value.items_contain(cfg={'name': 'x', 'xpath': [a]})", [("a", U)]),
+        ("literal.nested_two_levels", "Value.equal_to({'name': 'copy', 'src': {'path': [a, 0]}})", [("a", U)]),
+        ("path.in_map_value", "Value.equal_to({'k': DataPath('ref'), 'j': a})", [("a", "int")]),
     ]
     for cid, expr, extra, *more in path_args:
         params = extra + [("u1", U)]
@@ -191,6 +198,25 @@ doc = {{'a': u1, 2: {{'k': a}}, '': 1}}
 {ASSERT}
 """
     out.append(mk_case("c11.tree.mixed_kinds", [("k", "str"), ("n", "int"), ("a", "int"), ("u1", U)], body, pre=[f"BU({L}, k, n, a, u1)"], stubs=["sym_repr"]))
+    # history: what was parsed / serialised earlier in the process must not matter
+    seqs = [
+        ["Value.length.equal_to(n)", "Value.keys_contain('k')", "Value.required_keys('k', 'j')", "Value.length.greater_than(n) & Value.items_contain(k=n)"],
+        ["Key.dtype.equal_to(str)", "Key.keys_contain('k')", "Value.dtype.in_([int, bool])", "Value.allowed_keys('k')", "Value.keys_contain_N_of(n, ['k', 'j'])"],
+        ["Value.keys_contain('k')", "Value.length.less_than(n)", "Value.is_instance(bool, int)", "Value.dtype.equal_to(bool)"],
+    ]
+    for sn, seq in enumerate(seqs):
+        for order in ("fwd", "rev"):
+            items = seq if order == "fwd" else list(reversed(seq))
+            lines = "\n".join(f"""c = {src}
+js = c.to_json_like()
+ok = ok and note('step {i}: pure JSON', is_json_pure(js)) and note('step {i}: rebuilt equals the original', ConditionLike.from_json_like(js) == c)
+ok = ok and same('step {i}: re-serialisation', tx(ConditionLike.from_json_like(js).to_json_like()), tx(js))""" for i, src in enumerate(items))
+            body = f"""
+ok = True
+{lines}
+return ok
+"""
+            out.append(mk_case(f"c11.history.{sn}.{order}", [("n", "int")], body, pre=["I64(n)"], stubs=["sym_repr"]))
     body = f"""
 c = NullCondition()
 doc = [u1]
